@@ -116,7 +116,8 @@ def class_sweep(ctx):
 
 
 def run(ctx):
-    histcheck.run(ctx, MODULE, WEIGHTS, TAGS, lean_extra=EXTRA)
+    histcheck.run(ctx, MODULE, WEIGHTS, TAGS, lean_extra=EXTRA,
+                  release_quick_filter=lambda h: any(op.split()[0] in ('writeSlot',) for op in h))
     class_sweep(ctx)
 
 
